@@ -74,6 +74,7 @@ class Proc:
         self.src_reads = []         # mirror: non-empty results of reads of the source stream
         self.consumed = None        # mirror: number of source reads when the consumer returned / raised
         self.consumer_ok = None
+        self.src_failed = False
         self.read_acc = b""         # reader: bytes read from the archive under test
         self.result = None          # ("ok"|"skipped"|"fail"|"notfound"|"read", detail)
         self.linked = False
@@ -106,6 +107,7 @@ class World:
         self.trace = []             # observed operations (python tuples)
         self.tmp_ids = {}           # temporary path -> (dir, k)
         self.next_tmp = 0
+        self.tmp_owner = {}
         self.torn_down = False
 
     def inside(self, path):
@@ -282,6 +284,8 @@ class WriteProxy:
     def write(self, data):
         pr = self._pr
         data = bytes(data)
+        if _cur() is not pr or pr.kill:      # garbage collection of a killed process' objects
+            return len(data)
         fault = pr.point(("write", self._f.name))
         n = pr.world.name_of(self._f.name)
         if fault:
@@ -296,7 +300,7 @@ class WriteProxy:
 
     def close(self):
         pr = self._pr
-        if self._closed_once:
+        if self._closed_once or _cur() is not pr or pr.kill:
             return self._f.close()
         object.__setattr__(self, "_closed_once", True)
         fault = pr.point(("close", self._f.name))
@@ -327,6 +331,8 @@ class ReadProxy:
 
     def read(self, size=-1):
         pr = self._pr
+        if _cur() is not pr or pr.kill:
+            return b""
         fault = pr.point(("read", size))
         if fault:
             pr.world.trace.append(("read", 0))
@@ -360,6 +366,7 @@ class SrcProxy:
         pr = self._pr
         fail_at = pr.job.get("src_fail_at")
         if fail_at is not None and len(pr.src_reads) >= fail_at:
+            pr.src_failed = True
             raise _io_error()
         r = self._f.read(size)
         if r:
@@ -427,7 +434,10 @@ def h_named_tmp(*a, **kw):
         raise
     finally:
         pr.suppress -= 1
+    if w.name_of(f.name)[0] != "other":
+        w.trace.append(("other-op", "temporary name looks like an artifact name: " + os.path.basename(f.name)))
     w.tmp_ids[f.name] = (dn, k)
+    w.tmp_owner[(dn, k)] = pr.pid
     pr.tmpname = f.name
     w.trace.append(("mktemp", ("tmp", dn, k), True))
     return WriteProxy(pr, f)
@@ -526,6 +536,7 @@ def job_main(pr):
     from bob.errors import BuildError
     from bob.tty import SKIPPED, EXECUTED, ERROR
     w, j = pr.world, pr.job
+    w.by_thread[threading.get_ident()] = pr
     ws = os.path.join(w.scratch, "ws%d" % pr.pid)
     b = bid_bytes(j["bid"])
     try:
@@ -587,6 +598,7 @@ def job_main(pr):
         pr.result = ("internal", "%s: %s" % (type(e).__name__, traceback.format_exc()[-1500:]))
         pr.state = "done"
     finally:
+        w.by_thread.pop(threading.get_ident(), None)
         pr.arrived.release()
 
 
@@ -607,17 +619,29 @@ def prepare_world(scratch, jobs, extra=None):
             if not os.path.exists(sp):
                 import random as _r
                 size = j.get("src_size", 0)
-                rb = _r.Random(j.get("src_seed", 1)).randbytes(size) if size else None
-                sws = os.path.join(scratch, "srcws%d" % pid)
-                os.makedirs(os.path.join(sws, "content"))
-                with open(os.path.join(sws, "audit.json.gz"), "wb") as f:
-                    f.write(b"AUDIT")
-                with open(os.path.join(sws, "content", "data"), "wb") as f:
-                    f.write(b"source-of-%d" % (j["bid"] % 1000))
-                    if rb:
-                        f.write(rb)
-                A.BaseArchive._uploadPackage(src, bid_bytes(j["bid"]), A.ARTIFACT_SUFFIX,
-                                             os.path.join(sws, "audit.json.gz"), os.path.join(sws, "content"))
+                for attempt in range(10):
+                    rb = _r.Random(j.get("src_seed", 1)).randbytes(size) if size else None
+                    sws = os.path.join(scratch, "srcws%d_%d" % (pid, attempt))
+                    os.makedirs(os.path.join(sws, "content"))
+                    with open(os.path.join(sws, "audit.json.gz"), "wb") as f:
+                        f.write(b"AUDIT")
+                    with open(os.path.join(sws, "content", "data"), "wb") as f:
+                        f.write(b"source-of-%d" % (j["bid"] % 1000))
+                        if rb:
+                            f.write(rb)
+                    A.BaseArchive._uploadPackage(src, bid_bytes(j["bid"]), A.ARTIFACT_SUFFIX,
+                                                 os.path.join(sws, "audit.json.gz"), os.path.join(sws, "content"))
+                    if not j.get("src_tail"):
+                        break
+                    # make the last bytes of the artifact start a new 10240-byte read unit of the tar stream reader
+                    r = (os.path.getsize(sp) - 512) % 10240
+                    if 1 <= r <= 20:
+                        break
+                    delta = (8 - r) % 10240
+                    if delta > 5120 and size + delta - 10240 > 10300:
+                        delta -= 10240
+                    size += delta
+                    os.unlink(sp)
                 if j.get("src_corrupt"):
                     raw = open(sp, "rb").read()
                     os.chmod(sp, 0o644)
@@ -635,10 +659,7 @@ def start_world(w):
     for pr in w.procs:
         t = threading.Thread(target=job_main, args=(pr,), daemon=True)
         pr.thread = t
-        t.start()
-        w.by_thread[t.ident] = pr      # before the thread can reach a hook? it may already be running:
-        # a thread that reached a hook before registration just passed through (it only touches its workspace
-        # before the first archive operation); to be exact we register inside the thread too (see below)
+        t.start()                      # the thread registers itself in w.by_thread before doing anything else
         pr.arrived.acquire()
 
 
@@ -727,7 +748,11 @@ class Oracle:
             if raw not in comp:
                 srcs = [s for s in comp if s.startswith(raw)]
                 mirrors = [pr for pr in self.w.procs if pr.job["kind"] == "mirror" and pr.job["bid"] == b]
-                if mirrors and raw != self.w.src_bytes[b] and self.w.src_bytes[b].startswith(raw):
+                committed = [pr for pr in mirrors if pr.linked]
+                if committed and not all(pr.consumer_ok and not pr.src_failed for pr in committed):
+                    self.problems.append(("mirror-committed-although-the-stream-was-not-consumed",
+                                          "cache copy of %x (%d bytes) was linked although the consumer / the source stream failed" % (b, len(raw))))
+                elif mirrors and raw != self.w.src_bytes[b] and self.w.src_bytes[b].startswith(raw):
                     self.problems.append(("mirror-commits-truncated-copy:tail-unread-by-tar-reader",
                                           "cache copy of %x has %d bytes, the source artifact %d" % (b, len(raw), len(self.w.src_bytes[b]))))
                 else:
@@ -831,10 +856,19 @@ def run_scenario(sc, rng=None):
                     files.append((f.read(), stat.S_IMODE(st.st_mode)))
             except FileNotFoundError:
                 files.append(None)
-        rec = {"labels": labels, "trace": list(w.trace), "names": names, "files": files,
+        owners = {}
+        it_ = iter(w.trace)
+        for l in labels:
+            if l[0] == "step":
+                t_ = next(it_)
+                if t_[0] in ("link", "replace") and t_[3] == 0:
+                    owners[t_[2]] = l[1]
+        for (dn, k), pid_ in w.tmp_owner.items():
+            owners[("tmp", dn, k)] = pid_
+        rec = {"labels": labels, "trace": list(w.trace), "names": names, "files": files, "owners": owners,
                "procs": [{"state": pr.state, "result": pr.result, "writes": list(pr.writes), "linked": pr.linked,
                           "pack_returned": pr.pack_returned, "src_reads": list(pr.src_reads), "consumed": pr.consumed,
-                          "consumer_ok": pr.consumer_ok, "read_acc": pr.read_acc,
+                          "consumer_ok": pr.consumer_ok, "src_failed": pr.src_failed, "read_acc": pr.read_acc,
                           "opened": any(t[0] == "open" and t[2] for t in w.trace) if pr.job["kind"] == "read" else False}
                          for pr in w.procs],
                "problems": list(orc.problems), "src_bytes": dict(w.src_bytes)}
@@ -842,7 +876,13 @@ def run_scenario(sc, rng=None):
         for pr in w.procs:
             if pr.job["kind"] != "read" or pr.state != "done":
                 continue
-            opened = any(t[0] == "open" and t[1] == ("dest", pr.job["bid"]) and t[2] for t in w.trace)
+            opened = False
+            it_ = iter(w.trace)
+            for l in labels:
+                if l[0] == "step":
+                    t_ = next(it_)
+                    if l[1] == pr.pid and t_[0] == "open" and t_[2]:
+                        opened = True
             had_fault = any(l[0] == "step" and l[1] == pr.pid and l[2] for l in labels)
             if pr.result[0] == "internal":
                 rec["problems"].append(("internal-exception", pr.result[1]))
@@ -863,3 +903,823 @@ def run_scenario(sc, rng=None):
             except Exception:
                 pass
         shutil.rmtree(scratch, ignore_errors=True)
+
+
+# ------------------------------------------------------------------ Coq literals
+PREAMBLE = r"""
+Definition ob (a b : obs) : bool :=
+  match a, b with
+  | ONone, ONone => true
+  | OIsFile n r, OIsFile n' r' => name_eqb n n' && Bool.eqb r r'
+  | OIsDir d r, OIsDir d' r' => (d =? d') && Bool.eqb r r'
+  | OMkdirs d r, OMkdirs d' r' => (d =? d') && Bool.eqb r r'
+  | OMkTemp n r, OMkTemp n' r' => name_eqb n n' && Bool.eqb r r'
+  | OWrite n l r, OWrite n' l' r' => name_eqb n n' && (l =? l') && Bool.eqb r r'
+  | OClose n r, OClose n' r' => name_eqb n n' && Bool.eqb r r'
+  | OChmod n m r, OChmod n' m' r' => name_eqb n n' && (m =? m') && Bool.eqb r r'
+  | OLink t n r, OLink t' n' r' => name_eqb t t' && name_eqb n n' && (r =? r')
+  | OReplace t n r, OReplace t' n' r' => name_eqb t t' && name_eqb n n' && Bool.eqb r r'
+  | OUnlink n r, OUnlink n' r' => name_eqb n n' && Bool.eqb r r'
+  | OOpen n r, OOpen n' r' => name_eqb n n' && Bool.eqb r r'
+  | ORead l, ORead l' => l =? l'
+  | _, _ => false
+  end.
+Definition cls (o : option pc) : N :=
+  match o with
+  | None => 100
+  | Some (PDone ROk) => 1 | Some (PDone RLost) => 1
+  | Some (PDone RSkipped) => 2
+  | Some (PDone RFail) => 3 | Some (PDone RFailPub) => 3
+  | Some (PDone RNotFound) => 4
+  | Some (PDone (RRead _)) => 5 | Some (PRead _ _) => 5
+  | Some (PDead _) => 6
+  | Some _ => 0
+  end.
+Definition cls_ok (m e : N) : bool := (m =? e) || ((e =? 99) && (1 <=? m) && (m <=? 5)).
+Definition racc (o : option pc) : option data :=
+  match o with Some (PRead _ a) => Some a | Some (PDone (RRead a)) => Some a | _ => None end.
+Definition chk (i : list job * list lab * list name)
+               (e : list obs * list (option (data * N)) * list N * list (option data)) : bool :=
+  match i, e with
+  | (js, ls, ns), (tr, fl, cs, rs) =>
+      let o := observe js ls ns in
+      eqb_list ob (o_trace o) tr &&
+      eqb_list (eqb_option (eqb_prod eqb_str N.eqb)) (o_files o) fl &&
+      eqb_list cls_ok (map cls (o_pcs o)) cs &&
+      eqb_list (eqb_option eqb_str) (map racc (o_pcs o)) rs
+  end.
+"""
+
+
+class Unexpected(Exception):
+    pass
+
+
+def c_name(n):
+    if n[0] == "dest":
+        return "(Dest %d)" % n[1]
+    if n[0] == "meta":
+        return "(Meta %d %d)" % (n[1], n[2])
+    if n[0] == "tmp" and n[1] is not None:
+        return "(Tmp %d %d)" % (n[1], n[2])
+    raise Unexpected("operation on a name outside the protocol: %r" % (n,))
+
+
+def c_obs(t):
+    k = t[0]
+    if k == "isfile":
+        return "(OIsFile %s %s)" % (c_name(t[1]), L.B(t[2]))
+    if k == "isdir":
+        if t[1] is None:
+            raise Unexpected("stat of an unexpected path")
+        return "(OIsDir %d %s)" % (t[1], L.B(t[2]))
+    if k == "mkdirs":
+        if t[1] is None:
+            raise Unexpected("makedirs of an unexpected path")
+        return "(OMkdirs %d %s)" % (t[1], L.B(t[2]))
+    if k == "mktemp":
+        return "(OMkTemp %s %s)" % (c_name(t[1]), L.B(t[2]))
+    if k == "write":
+        return "(OWrite %s %d %s)" % (c_name(t[1]), t[2], L.B(t[3]))
+    if k == "close":
+        return "(OClose %s %s)" % (c_name(t[1]), L.B(t[2]))
+    if k == "chmod":
+        return "(OChmod %s %d %s)" % (c_name(t[1]), t[2], L.B(t[3]))
+    if k == "link":
+        return "(OLink %s %s %d)" % (c_name(t[1]), c_name(t[2]), t[3])
+    if k == "replace":
+        return "(OReplace %s %s %s)" % (c_name(t[1]), c_name(t[2]), L.B(t[3] == 0))
+    if k == "unlink":
+        return "(OUnlink %s %s)" % (c_name(t[1]), L.B(t[2]))
+    if k == "open":
+        return "(OOpen %s %s)" % (c_name(t[1]), L.B(t[2]))
+    if k == "read":
+        return "(ORead %d)" % t[1]
+    raise Unexpected("operation outside the protocol: %r" % (t,))
+
+
+def c_mode(m):
+    return "None" if m is None else "(Some %d)" % m
+
+
+class Pool:
+    """byte strings of one batch of cases, each distinct one defined once in the preamble of that batch"""
+
+    def __init__(self, surrogate=False):
+        # surrogate: every distinct byte string b of the batch is replaced by `repeat tag (len b)` with a tag
+        # unique to b.  The model treats bytes as opaque (it only appends, concatenates and cuts by length), so
+        # this keeps lengths and the equal/different pattern of all chunks while the Coq literals stay small;
+        # that file contents / read results are prefixes of the chunk sequence they are expressed by is checked
+        # on the real bytes (explain) before.
+        self.surrogate = surrogate
+        self.names = {}
+        self.defs = []
+
+    def ref(self, b):
+        b = bytes(b)
+        if not b:
+            return "(@nil N)"
+        nm = self.names.get(b)
+        if nm is None:
+            nm = "d%d" % len(self.names)
+            self.names[b] = nm
+            if self.surrogate:
+                self.defs.append("Definition %s : data := repeat %d %d%%nat." % (nm, 1000 + len(self.names), len(b)))
+            else:
+                self.defs.append("Definition %s : data := %s." % (nm, L.by(b)))
+        return nm
+
+    def chunks(self, chs):
+        return L.lst([self.ref(c) for c in chs]) if chs else "(@nil data)"
+
+    def explain(self, x, streams):
+        """x as a prefix of the concatenation of one of the known chunk sequences (keeps the literals small;
+        the bytes denoted are exactly x either way)"""
+        x = bytes(x)
+        if not x:
+            return "(@nil N)"
+        for chs in streams:
+            tot = b"".join(chs)
+            if len(tot) >= len(x) and tot.startswith(x):
+                used, n = [], 0
+                for c in chs:
+                    if n >= len(x):
+                        break
+                    if c:
+                        used.append(self.ref(c))
+                    n += len(c)
+                e = "(" + " ++ ".join(used) + ")"
+                return e if n == len(x) else "(firstn %d%%nat %s)" % (len(x), e)
+        return self.ref(x)
+
+    def preamble(self):
+        return "\n".join(self.defs) + "\n"
+
+
+def c_job(job, p, pool):
+    kind = job["kind"]
+    if kind == "mirror" and p["consumed"] is not None and all(ok for _, ok in p["writes"]):
+        # ok: the consumer returned normally and the rest of the stream could be read; otherwise everything that
+        # had been read before the failure was forwarded
+        ok = bool(p["consumer_ok"]) and not p["src_failed"]
+        n = p["consumed"] if ok else len(p["src_reads"])
+        return "(mirror_job %d %s %d%%nat %s %s)" % (job["bid"], pool.chunks(p["src_reads"]), n,
+                                                   c_mode(job.get("mode")), L.B(ok))
+    k = {"upload": "KUpload", "mirror": "KMirror", "read": "KRead"}.get(kind) or "(KMeta %d)" % job["sfx"]
+    if kind == "upload":
+        ok = p["pack_returned"] if p["state"] == "done" else True
+    else:
+        ok = True
+    return "{| j_kind := %s; j_bid := %d; j_chunks := %s; j_mode := %s; j_ok := %s |}" % (
+        k, job["bid"], pool.chunks([d for d, _ in p["writes"]]), c_mode(job.get("mode")), L.B(ok))
+
+
+def real_class(job, p):
+    if p["state"] == "dead":
+        return 6
+    if p["state"] != "done":
+        return 5 if (job["kind"] == "read" and p["opened_self"]) else 0
+    r = p["result"][0]
+    return {"ok": 1, "skipped": 2, "fail": 3, "notfound": 4, "read": 5, "mirror": 99, "internal": 3}[r]
+
+
+def coq_case(sc, rec, pool):
+    """(input literal, expected literal) of one executed scenario; raises Unexpected"""
+    jobs = sc["jobs"]
+    js = L.lst([c_job(j, p, pool) for j, p in zip(jobs, rec["procs"])])
+    ls = L.lst(["(LStep %d%%nat %s %d)" % (l[1], L.B(l[2]), l[3]) if l[0] == "step" else "(LKill %d%%nat)" % l[1]
+                for l in rec["labels"]]) if rec["labels"] else "(@nil lab)"
+    ns = L.lst([c_name(n) for n in rec["names"]])
+    # a kill has no operation: the model emits ONone for it
+    it = iter(rec["trace"])
+    full = []
+    for l in rec["labels"]:
+        full.append("ONone" if l[0] == "kill" else c_obs(next(it)))
+    tr = L.lst(full) if full else "(@nil obs)"
+    streams = [[d for d, ok in p["writes"] if ok] for p in rec["procs"]]
+
+    def owner_first(n):
+        o = rec["owners"].get(n)
+        return streams if o is None else [streams[o]] + streams[:o] + streams[o + 1:]
+    fl = L.lst(["(@None (data * N))" if f is None else "(Some (%s, %d))" % (pool.explain(f[0], owner_first(n)), f[1])
+                for n, f in zip(rec["names"], rec["files"])])
+    cs, rs = [], []
+    for j, p in zip(jobs, rec["procs"]):
+        c = real_class(j, p)
+        cs.append(str(c))
+        rs.append("(Some %s)" % pool.explain(p["read_acc"], owner_first(("dest", j["bid"])))
+                  if (j["kind"] == "read" and c == 5) else "(@None data)")
+    return "(%s, %s, %s)" % (js, ls, ns), "(%s, %s, %s, %s)" % (tr, fl, L.lst(cs), L.lst(rs))
+
+
+# ------------------------------------------------------------------ scenario generators
+B0 = 5 << 140                 # directory 00/50? no: the first two bytes are 0x00 0x50
+B1 = B0 + 1                   # same directory, other artifact
+B2 = (0xAB12 << 144) | 7      # other directory
+MODES = [None, None, 0o644, 0o444, 0o600]
+
+
+def gen_job(rng, bids):
+    r = rng.random()
+    b = rng.choice(bids)
+    if r < 0.5:
+        return {"kind": "upload", "bid": b, "mode": rng.choice(MODES), "content": rng.randrange(1000),
+                "nofail": rng.random() < 0.2, "pack_fail": rng.random() < 0.07}
+    if r < 0.65:
+        j = {"kind": "mirror", "bid": b, "mode": rng.choice(MODES), "nofail": rng.random() < 0.3}
+        x = rng.random()
+        if x < 0.2:
+            j["src_fail_at"] = rng.randrange(3)
+        elif x < 0.3:
+            j["src_corrupt"] = True
+        elif x < 0.38:
+            # an artifact whose last bytes start a new read unit of the tar stream reader: the consumer stops early
+            j["src_size"] = 10300 + rng.randrange(400)
+            j["src_seed"] = rng.randrange(100)
+            j["src_tail"] = True
+        return j
+    if r < 0.85:
+        return {"kind": "read", "bid": b}
+    return {"kind": "meta", "bid": b, "sfx": rng.randrange(2), "mode": rng.choice(MODES), "content": rng.randrange(1000),
+            "nofail": rng.random() < 0.2}
+
+
+def gen_scenario(rng):
+    bids = rng.choice([[B0], [B0], [B0], [B0, B1], [B0, B2], [B0, B1, B2]])
+    n = rng.choice([1, 2, 2, 3, 3, 4, 5])
+    jobs = [gen_job(rng, bids) for _ in range(n)]
+    # one source artifact per build-id: mirrors of the same id must agree on its parameters
+    seen = {}
+    for j in jobs:
+        if j["kind"] == "mirror":
+            base = seen.setdefault(j["bid"], j)
+            for k in ("src_size", "src_seed", "src_corrupt", "src_tail"):
+                if k in base:
+                    j[k] = base[k]
+                else:
+                    j.pop(k, None)
+    return {"jobs": jobs,
+            "strategy": rng.choice(["random", "random", "random", "barrier", "barrier", "roundrobin", "sequential"]),
+            "p_fault": rng.choice([0, 0, 0, 0.03, 0.1]), "p_kill": rng.choice([0, 0, 0, 0.02, 0.08]),
+            "seed": rng.randrange(1 << 30)}
+
+
+def systematic(rng):
+    """an injected OSError, and a kill, at every operation of each upload path, followed by a second uploader
+    and a reader of the same build-id"""
+    out = []
+    firsts = [{"kind": "upload", "bid": B0, "mode": 0o644, "content": 1},
+              {"kind": "upload", "bid": B0, "mode": None, "content": 1, "nofail": True},
+              {"kind": "meta", "bid": B0, "sfx": 0, "mode": 0o644, "content": 1},
+              {"kind": "mirror", "bid": B0, "mode": 0o644},
+              {"kind": "mirror", "bid": B0, "mode": None, "nofail": True}]
+    for first in firsts:
+        probe = run_scenario({"jobs": [first], "strategy": "sequential"}, rng)
+        n = len(probe["labels"])
+        for i in range(n):
+            for what in ("fault_at", "kill_at"):
+                out.append({"jobs": [dict(first), {"kind": "upload", "bid": B0, "mode": 0o600, "content": 2}, {"kind": "read", "bid": B0}],
+                            "strategy": "sequential", what: [[0, i]]})
+    # lost race / already exists, in every order of the two publishing operations
+    for strat in ("barrier", "sequential", "roundrobin"):
+        for k2 in ("upload", "mirror"):
+            out.append({"jobs": [{"kind": "upload", "bid": B0, "mode": 0o644, "content": 1},
+                                 {"kind": k2, "bid": B0, "mode": None, "content": 2},
+                                 {"kind": "read", "bid": B0}], "strategy": strat, "seed": 1})
+    return out
+
+
+def execute(ctx, sc, cases, meta, origin):
+    import random
+    rng = random.Random(sc.get("seed", 0))
+    rec = run_scenario(sc, rng)
+    ctx.evaluated()
+    jobs = sc["jobs"]
+    for p, pr_state in zip(rec["procs"], rec["procs"]):
+        pass
+    # per-process: did the reader itself open the artifact (for the class of a blocked reader)
+    for pid, (j, p) in enumerate(zip(jobs, rec["procs"])):
+        p["opened_self"] = False
+    it = iter(rec["trace"])
+    for l in rec["labels"]:
+        if l[0] == "step":
+            t = next(it)
+            if t[0] == "open" and t[2]:
+                rec["procs"][l[1]]["opened_self"] = True
+    kinds = "+".join(sorted(j["kind"] for j in jobs))
+    ctx.count("jobs:" + kinds)
+    ctx.count("strategy:" + sc.get("strategy", "explicit" if sc.get("schedule") else "random"))
+    nf = sum(1 for l in rec["labels"] if l[0] == "step" and l[2])
+    nk = sum(1 for l in rec["labels"] if l[0] == "kill")
+    ctx.count("faults:%s" % ("0" if nf == 0 else "1" if nf == 1 else "2+"))
+    ctx.count("kills:%s" % ("0" if nk == 0 else "1+"))
+    for t in rec["trace"]:
+        if t[0] == "link":
+            ctx.count("link:%s" % {0: "linked", 1: "lost-race", 2: "error"}[t[3]])
+        if t[0] == "isfile" and t[2]:
+            ctx.count("exists-check:already-there")
+    for j, p in zip(jobs, rec["procs"]):
+        ctx.count("outcome:%s:%s" % (j["kind"], p["state"] if p["state"] != "done" else p["result"][0] if p["result"] else "?"))
+        if j["kind"] == "mirror" and p["consumed"] is not None and p["consumed"] < len(p["src_reads"]):
+            ctx.count("mirror:consumer-stopped-before-end-of-stream")
+    same_bid = len(jobs) > len({j["bid"] for j in jobs})
+    interleaved = any(rec["labels"][i][1] != rec["labels"][i + 1][1] for i in range(len(rec["labels"]) - 1))
+    if (same_bid and interleaved) or nf or nk:
+        ctx.nontrivial(("c09", json.dumps(jobs, sort_keys=True), tuple(rec["labels"])))
+    replay_obj = {"jobs": jobs, "schedule": [list(l) for l in rec["labels"]], "origin": origin}
+    for sig, what in rec["problems"]:
+        ctx.violation(sig, what, replay_obj)
+    if len(ctx.cov["samples"]) < 5 and len(jobs) >= 2 and interleaved:
+        ctx.sample({"jobs": jobs, "schedule": ["%s%d%s" % (l[0][0], l[1], "!" if l[0] == "step" and l[2] else "") for l in rec["labels"]][:60],
+                    "outcomes": [p["result"] or p["state"] for p in rec["procs"]]})
+    try:
+        cases.append((sc, rec))
+        coq_case(sc, rec, Pool())          # operations outside the model are reported here
+        meta.append(replay_obj)
+    except Unexpected as e:
+        cases.pop()
+        ctx.tie_broken("operation-outside-the-model", {"what": str(e), "case": replay_obj})
+    return rec
+
+
+def evaluate_on_model(ctx, cases, meta, batch=45, workers=4, real_bytes=45):
+    """vm_compute BobV.C09.Model.observe on the schedule of every executed scenario and compare"""
+    from concurrent.futures import ThreadPoolExecutor
+    batches = [(i, cases[i:i + batch]) for i in range(0, len(cases), batch)]
+
+    def one(arg):
+        off, cs = arg
+        pool = Pool(surrogate=off >= real_bytes)      # the first `real_bytes` cases carry the real payload bytes
+        lits = [coq_case(sc, rec, pool) for sc, rec in cs]
+        bad, log = coq.run_cases(ctx, ["BobV.C09.Model"], "(fun i => i)", "chk", lits,
+                                 preamble=PREAMBLE + pool.preamble(), tag="c09b%d" % off, shard=len(lits))
+        return off, len(lits), bad, log
+
+    with ThreadPoolExecutor(max_workers=workers) as ex:
+        for off, n, bad, log in ex.map(one, batches):
+            if bad is None:
+                ctx.tie_broken("C09 model evaluation failed", log)
+                continue
+            ctx.validated(n - len(bad))
+            ctx.count("model-cases:%s" % ("surrogate-bytes" if off >= real_bytes else "real-bytes"), n)
+            for i in bad[:5]:
+                ctx.tie_broken("trace/state correspondence", meta[off + i])
+            if bad:
+                ctx.count("model-mismatch", len(bad))
+
+
+# ------------------------------------------------------------------ real multi-process stress
+def _stress_uploader(root, ws, bid, idx, seed):
+    """child process: one real upload; writes are additionally copied to ws/payload.bin; random tiny delays
+    widen the race windows"""
+    import random
+    A = _bob()
+    rnd = random.Random(seed)
+    real_ntf = A.NamedTemporaryFile
+    side = open(os.path.join(ws, "payload.bin"), "wb", buffering=0)
+
+    class P:
+        def __init__(self, f):
+            self._f = f
+
+        def __getattr__(self, k):
+            return getattr(self._f, k)
+
+        @property
+        def name(self):
+            return self._f.name
+
+        def write(self, d):
+            side.write(d)
+            if rnd.random() < 0.3:
+                time.sleep(rnd.random() * 0.0015)
+            return self._f.write(d)
+
+        def close(self):
+            side.write(b"")
+            with open(os.path.join(ws, "packed"), "wb") as g:      # all writes were issued
+                g.write(b"1")
+            if rnd.random() < 0.5:
+                time.sleep(rnd.random() * 0.002)
+            return self._f.close()
+
+    def ntf(*a, **kw):
+        return P(real_ntf(*a, **kw))
+    A.NamedTemporaryFile = ntf
+    saved = {}
+    for nm in ("link", "unlink", "chmod"):
+        real = getattr(os, nm)
+        saved[nm] = real
+
+        def delayed(*a, _real=real, **kw):
+            if rnd.random() < 0.6:
+                time.sleep(rnd.random() * 0.002)
+            return _real(*a, **kw)
+        setattr(os, nm, delayed)
+    arch = _enable(A.LocalArchive({"backend": "file", "path": root, "fileMode": [None, 0o644, 0o600][idx % 3]}
+                                  if idx % 3 else {"backend": "file", "path": root}))
+    time.sleep(rnd.random() * 0.004)
+    try:
+        msg, kind = A.BaseArchive._uploadPackage(arch, bid, A.ARTIFACT_SUFFIX, os.path.join(ws, "audit.json.gz"),
+                                                 os.path.join(ws, "content"))
+        with open(os.path.join(ws, "result"), "w") as f:
+            f.write(str(msg))
+    except BaseException as e:
+        with open(os.path.join(ws, "result"), "w") as f:
+            f.write("EXC " + repr(e))
+    finally:
+        A.NamedTemporaryFile = real_ntf
+        for nm, fn in saved.items():
+            setattr(os, nm, fn)
+        side.close()
+
+
+def _stress_reader(root, ws, bid, stopfile, seed):
+    """child process: polls the artifact name; every observation is recorded with its digest and validity"""
+    import random
+    A = _bob()
+    rnd = random.Random(seed)
+    p = dest_path(root, int.from_bytes(bid, "big"))
+    arch = _enable(A.LocalArchive({"backend": "file", "path": root}))
+    obs = []
+    n = 0
+    t_end = time.time() + 20
+    while time.time() < t_end:
+        stop = os.path.exists(stopfile)
+        n += 1
+        try:
+            with open(p, "rb") as f:
+                st = os.fstat(f.fileno())
+                parts = []
+                while True:
+                    d = f.read(rnd.choice([512, 4096, 10240]))
+                    if not d:
+                        break
+                    parts.append(d)
+                    if rnd.random() < 0.2:
+                        time.sleep(rnd.random() * 0.001)
+                raw = b"".join(parts)
+            ok = valid_artifact(raw)
+            rec = {"sha": hashlib.sha1(raw).hexdigest(), "len": len(raw), "valid": ok, "ino": st.st_ino,
+                   "mode": stat.S_IMODE(st.st_mode)}
+            if n % 3 == 0:
+                # Bob's own reader
+                try:
+                    ret = A.BaseArchive._downloadPackage(arch, bid, A.ARTIFACT_SUFFIX, os.path.join(ws, "o.audit"),
+                                                         os.path.join(ws, "o"), [], "ws")
+                    rec["bob"] = bool(ret[0]) and open(os.path.join(ws, "o", "data"), "rb").read(40).decode("latin1")
+                except BaseException as e:
+                    rec["bob"] = "EXC " + repr(e)[:200]
+            if not obs or obs[-1] != rec:
+                obs.append(rec)
+        except FileNotFoundError:
+            pass
+        if stop:
+            break
+        time.sleep(rnd.random() * 0.002)
+    with open(os.path.join(ws, "observations.json"), "w") as f:
+        json.dump(obs, f)
+
+
+class WorkerTimeout(Exception):
+    pass
+
+
+class Worker:
+    """a forked process that executes uploads / reader rounds on command.  Process creation and the first
+    run of a fresh process are slow here (copy-on-write faults), so workers persist, a SIGKILLed uploader is
+    replaced by a spare that has already done a warm-up upload into a private directory."""
+
+    def __init__(self, role, warm_dir=None):
+        self.role = role
+        c_r, c_w = os.pipe()
+        d_r, d_w = os.pipe()
+        sys.stdout.flush()
+        pid = os.fork()
+        if pid == 0:
+            try:
+                os.close(c_w)
+                os.close(d_r)
+                fin = os.fdopen(c_r, "r")
+                for line in fin:
+                    cmd = json.loads(line)
+                    try:
+                        if role == "up":
+                            _stress_uploader(cmd["root"], cmd["ws"], bytes.fromhex(cmd["bid"]), cmd["idx"], cmd["seed"])
+                        else:
+                            _stress_reader(cmd["root"], cmd["ws"], bytes.fromhex(cmd["bid"]), cmd["stop"], cmd["seed"])
+                    except BaseException:
+                        pass
+                    finally:
+                        os.write(d_w, b"x")
+            finally:
+                os._exit(0)
+        os.close(c_r)
+        os.close(d_w)
+        self.pid, self.cmd_w, self.done_r = pid, c_w, d_r
+        self.warming = False
+        if warm_dir is not None and role == "up":
+            ws = os.path.join(warm_dir, "w%d" % pid)
+            os.makedirs(os.path.join(ws, "content"))
+            with open(os.path.join(ws, "audit.json.gz"), "wb") as f:
+                f.write(b"AUDIT")
+            with open(os.path.join(ws, "content", "data"), "wb") as f:
+                f.write(b"warm-up")
+            self.send({"root": os.path.join(ws, "C"), "ws": ws, "bid": bid_bytes(B2).hex(), "idx": 0, "seed": 0})
+            self.warming = True
+
+    def send(self, cmd):
+        os.write(self.cmd_w, (json.dumps(cmd) + "\n").encode())
+
+    def wait_done(self, timeout):
+        import select
+        r, _, _ = select.select([self.done_r], [], [], timeout)
+        if r:
+            return os.read(self.done_r, 1) == b"x"
+        return False
+
+    def ready(self, timeout=300):
+        if self.warming:
+            if not self.wait_done(timeout):
+                raise WorkerTimeout("warm-up of a stress worker did not finish in %ds" % timeout)
+            self.warming = False
+        return True
+
+    def close(self, kill=True):
+        for fd in (self.cmd_w, self.done_r):
+            try:
+                os.close(fd)
+            except OSError:
+                pass
+        if kill:
+            try:
+                os.kill(self.pid, signal.SIGKILL)
+            except ProcessLookupError:
+                pass
+        try:
+            os.waitpid(self.pid, 0)
+        except ChildProcessError:
+            pass
+
+
+class StressPool:
+    def __init__(self, n_up, n_rd, n_spare=3):
+        self.warm_dir = core.scratch_dir("c09w")
+        self.ups = [Worker("up", self.warm_dir) for _ in range(n_up)]
+        self.rds = [Worker("rd") for _ in range(n_rd)]
+        self.spares = [Worker("up", self.warm_dir) for _ in range(n_spare)]
+        for w in self.ups:
+            w.ready()
+
+    def replace(self, i):
+        self.ups[i].close(kill=False)
+        sp = self.spares.pop(0)
+        sp.ready()
+        self.ups[i] = sp
+        self.spares.append(Worker("up", self.warm_dir))
+
+    def close(self):
+        for w in self.ups + self.rds + self.spares:
+            w.close()
+        shutil.rmtree(self.warm_dir, ignore_errors=True)
+
+
+def stress_round(ctx, rng, pool):
+    scratch = core.scratch_dir("c09s")
+    try:
+        root = os.path.join(scratch, "C")
+        os.makedirs(root)
+        bid = bid_bytes(B0 + rng.randrange(1 << 20))
+        stopfile = os.path.join(scratch, "stop")
+        ups, rds = [], []
+        for i in range(len(pool.ups)):
+            ws = os.path.join(scratch, "u%d" % i)
+            os.makedirs(os.path.join(ws, "content"))
+            with open(os.path.join(ws, "audit.json.gz"), "wb") as f:
+                f.write(b"AUDIT")
+            with open(os.path.join(ws, "content", "data"), "wb") as f:
+                f.write(b"stress-payload-%d;" % i + rng.randbytes(rng.choice([0, 100, 5000, 40000])))
+            ups.append(ws)
+        for i in range(len(pool.rds)):
+            ws = os.path.join(scratch, "r%d" % i)
+            os.makedirs(ws)
+            rds.append(ws)
+        for i, (wk, ws) in enumerate(zip(pool.rds, rds)):
+            wk.send({"root": root, "ws": ws, "bid": bid.hex(), "stop": stopfile, "seed": rng.randrange(1 << 30)})
+        for i, (wk, ws) in enumerate(zip(pool.ups, ups)):
+            wk.send({"root": root, "ws": ws, "bid": bid.hex(), "idx": i, "seed": rng.randrange(1 << 30)})
+        # SIGKILL a random subset at random points of their upload
+        victims = []
+        if rng.random() < 0.4:
+            victims = sorted((rng.random() * 0.02, i) for i in rng.sample(range(len(pool.ups)), rng.choice([1, 1, 2])))
+        t0 = time.time()
+        killed = set()
+        for delay, i in victims:
+            dt = delay - (time.time() - t0)
+            if dt > 0:
+                time.sleep(dt)
+            wk = pool.ups[i]
+            if wk.wait_done(0):
+                wk.done_seen = True          # finished before the kill came
+                continue
+            os.kill(wk.pid, signal.SIGKILL)
+            killed.add(i)
+        for i, wk in enumerate(pool.ups):
+            if i in killed:
+                try:
+                    pool.replace(i)
+                except WorkerTimeout as e:
+                    return None, {"skipped": str(e)}
+            elif getattr(wk, "done_seen", False):
+                wk.done_seen = False
+            elif not wk.wait_done(90):
+                return None, {"skipped": "uploader worker %d did not finish in 90s" % i}
+        with open(stopfile, "w") as f:
+            f.write("x")
+        for wk in pool.rds:
+            if not wk.wait_done(90):
+                return None, {"skipped": "reader worker did not finish in 90s"}
+        # ---- verdict
+        problems = []
+        p = dest_path(root, int.from_bytes(bid, "big"))
+        payloads = {}
+        finished = 0
+        for i, ws in enumerate(ups):
+            if os.path.exists(os.path.join(ws, "packed")):
+                payloads[i] = open(os.path.join(ws, "payload.bin"), "rb").read()
+            if os.path.exists(os.path.join(ws, "result")):
+                res = open(os.path.join(ws, "result")).read()
+                if res == "ok" or "skipped" in res:
+                    finished += 1
+                elif res.startswith("EXC"):
+                    problems.append(("uploader-raised", res[:300]))
+        final = open(p, "rb").read() if os.path.exists(p) else None
+        ctx.count("stress:final-%s" % ("present" if final is not None else "absent"))
+        ctx.count("stress:killed-during-upload", len(killed))
+        if final is None and finished:
+            problems.append(("artifact-missing-after-successful-upload", "%d uploaders reported ok/skipped but nothing is there" % finished))
+        if final is not None:
+            owners = [i for i, d in payloads.items() if d == final]
+            if len(owners) != 1:
+                problems.append(("artifact-incomplete-or-foreign-content",
+                                 "final artifact (%d bytes) equals the complete output of %d uploaders" % (len(final), len(owners))))
+            if not valid_artifact(final):
+                problems.append(("artifact-invalid-gzip-tar", "final artifact is not a valid gzip/tar"))
+        fsha = hashlib.sha1(final).hexdigest() if final is not None else None
+        nobs = 0
+        for ws in rds:
+            try:
+                obs = json.load(open(os.path.join(ws, "observations.json")))
+            except FileNotFoundError:
+                return None, {"skipped": "a reader worker left no observations"}
+            for o in obs:
+                nobs += 1
+                if not o["valid"]:
+                    problems.append(("reader-saw-incomplete-artifact", "a reader saw %d bytes that are not a valid artifact" % o["len"]))
+                if o["sha"] != fsha:
+                    problems.append(("artifact-changed-after-publication", "a reader saw sha %s, final is %s" % (o["sha"], fsha)))
+                b = o.get("bob")
+                if b is not None and not (isinstance(b, str) and b.startswith("stress-payload-")):
+                    problems.append(("reader-saw-incomplete-artifact", "Bob's downloader on a present artifact: %r" % (b,)))
+            if len({(o["ino"], o["mode"]) for o in obs}) > 1:
+                problems.append(("artifact-changed-after-publication", "inode/mode changed between observations"))
+        ctx.count("stress:reader-observations", nobs)
+        leftovers = [f for f in glob.glob(os.path.join(root, "*", "*", "*")) if f != p]
+        ctx.count("stress:leftover-temporaries", len(leftovers))
+        if len(leftovers) > len(killed):
+            problems.append(("temporary-files-left-by-unkilled-uploaders", "%d leftovers, %d killed" % (len(leftovers), len(killed))))
+        return problems, {"n_up": len(pool.ups), "n_rd": len(pool.rds), "killed": len(killed),
+                          "final": None if final is None else len(final)}
+    finally:
+        shutil.rmtree(scratch, ignore_errors=True)
+
+
+# ------------------------------------------------------------------ main
+def load_corpus():
+    out = []
+    for p in sorted(glob.glob(os.path.join(core.VERIF, "corpus", "C09", "*.json"))):
+        with open(p) as f:
+            d = json.load(f)
+        d["_file"] = os.path.basename(p)
+        out.append(d)
+    return out
+
+
+def run(ctx):
+    ctx.rule = ("jobs (package uploader / cache mirror / metadata uploader / reader; 1-5 per scenario, mostly on one "
+                "build-id) x schedule (random, round-robin, sequential, 'everybody waits before its link') x injected "
+                "OSError / kill at any operation; plus an OSError and a kill at EVERY operation of each upload path; "
+                "non-trivial = at least two processes of one build-id actually interleaved, or a fault/kill; distinct "
+                "by (jobs, executed label sequence)")
+    ctx.assumptions += [
+        "proved for the file backend only; HTTP/Azure/shell backends are not modelled (their atomicity is the server's)",
+        "kernel semantics assumed: link() fails with EEXIST instead of replacing, O_EXCL creates a new inode, "
+        "names are switched atomically, data written through a descriptor belongs to the inode not the name",
+        "crash = kill of a process / I/O error at any operation; power loss is out of scope (the code does not fsync)",
+        "POSIX branch of LocalArchiveUploader.__exit__ only (isWindows() false); directoryMode/umask handling not modelled",
+        "temporary names of tempfile never coincide with artifact names (checked on every observed name)",
+        "the payload (gzip/tar bytes produced by _pack) is opaque here: any sequence of write() chunks (see C08)",
+        "theorems are about the hand-written model; its agreement with pym/bob/archive.py is exercised, not proved, by "
+        "replaying every executed schedule on the model (operation trace, final files, outcomes)",
+    ]
+    ctx.trusted_base += ["C09 harness: os/tempfile/open wrappers that turn operations of the real upload path into scheduling points"]
+    import random
+    rng = ctx.rng
+    try:
+        if ctx.replay:
+            return replay(ctx)
+        # (3) real processes first (fork before any thread exists in this process)
+        rounds = ctx.n(100, 2200)
+        budget = ctx.n(45, 1500)              # seconds; fork() can be very slow on a loaded machine
+        t0 = time.time()
+        done = 0
+        pool = StressPool(6 if ctx.tier == "quick" else 10, 2)
+        try:
+            skipped = 0
+            for r in range(rounds):
+                problems, info = stress_round(ctx, rng, pool)
+                if problems is None:
+                    # the harness' own worker processes did not answer (overloaded machine): not a verdict on the code
+                    skipped += 1
+                    ctx.count("stress:round-skipped-worker-timeout")
+                    pool.close()
+                    if skipped > 5:
+                        ctx.note("stress stopped: workers timed out %d times (%s)" % (skipped, info.get("skipped")))
+                        pool = StressPool(0, 0, 0)
+                        break
+                    pool = StressPool(len(pool.ups), len(pool.rds))
+                    continue
+                ctx.evaluated()
+                done += 1
+                ctx.nontrivial(("stress", r, ctx.seed))
+                for sig, what in problems:
+                    ctx.violation(sig, "multi-process stress: " + what, {"stress": info, "round": r, "seed": ctx.seed})
+                if time.time() - t0 > budget and done >= 25:
+                    break
+        finally:
+            pool.close()
+        ctx.note("multi-process stress: %d of %d rounds in %.1fs (time budget %ds)" % (done, rounds, time.time() - t0, budget))
+        if done == 0:
+            ctx.tie_broken("multi-process stress did not run", "no round completed")
+        # (1)+(2) deterministic interleavings
+        t1 = time.time()
+        cases, meta = [], []
+        for c in load_corpus():
+            execute(ctx, c, cases, meta, "corpus:" + c["_file"])
+            ctx.count("corpus")
+        for sc in systematic(random.Random(rng.randrange(1 << 30))):
+            execute(ctx, sc, cases, meta, "systematic")
+        n = ctx.n(240, 5000)
+        for i in range(n):
+            execute(ctx, gen_scenario(rng), cases, meta, "random")
+        uninstall_hooks()
+        t2 = time.time()
+        ctx.note("deterministic interleavings: %d scenarios in %.1fs" % (len(cases), t2 - t1))
+        evaluate_on_model(ctx, cases, meta)
+        ctx.note("model evaluation (vm_compute): %.1fs" % (time.time() - t2))
+    finally:
+        uninstall_hooks()
+
+
+def replay(ctx):
+    d = json.load(open(ctx.replay))
+    c = d.get("case", d)
+    for b in d.get("broken", []):
+        det = b.get("detail")
+        if isinstance(det, dict) and "jobs" in det:
+            c = det
+            break
+        if isinstance(det, dict) and isinstance(det.get("case"), dict):
+            c = det["case"]
+            break
+    if "jobs" not in c and "stress" not in c:
+        print("nothing to replay in", ctx.replay)
+        return
+    if "stress" in c:
+        import random
+        rng = random.Random(c.get("seed", 1))
+        pool = StressPool(c["stress"].get("n_up", 6), c["stress"].get("n_rd", 2))
+        try:
+            for r in range(200):
+                problems, info = stress_round(ctx, rng, pool)
+                if problems is None:
+                    print("round skipped:", info)
+                    break
+                ctx.evaluated()
+                for sig, what in problems:
+                    ctx.violation(sig, "multi-process stress: " + what, c)
+                if problems:
+                    break
+        finally:
+            pool.close()
+        return
+    cases, meta = [], []
+    rec = execute(ctx, {"jobs": c["jobs"], "schedule": c["schedule"]}, cases, meta, "replay")
+    uninstall_hooks()
+    for l, t in zip([l for l in rec["labels"] if l[0] == "step"], rec["trace"]):
+        print(l, t)
+    print("files:", [(n, None if f is None else (len(f[0]), oct(f[1]))) for n, f in zip(rec["names"], rec["files"])])
+    print("outcomes:", [(p["state"], p["result"]) for p in rec["procs"]])
+    print("oracle:", rec["problems"])
+    evaluate_on_model(ctx, cases, meta)
+
